@@ -303,7 +303,8 @@ META = {
             "fallback's NaN predicate and polarity, every comparison in the repo is scanned for the NaN contradiction, "
             "the custom-array path is shown to be the identity, and every consumer is shown to resolve radii through "
             "that one function. This decides 'documented table per preset', 'custom array unchanged' and 'preset and "
-            "array take the same path' for every element and input; the numbers in ASE's tables are not examined.",
+            "array take the same path' for every element and input; the numbers in ASE's tables are not examined."
+            " Also: the vdw_covalent fallback must be an elementwise selection (a whole-structure switch is a violation), a custom array is never re-indexed outside the preset branch, and SBC.get_clusters derives distances from this call's radii (no state carried between calls).",
     "note": "trusted: CPython ast; import resolution of the repository model; ASE's module layout (ase.data, ase.data.vdw_alvarez).",
     "technique": "contradiction rule (NaN comparison) + resolved-import / def-use checks on the preset dispatch",
 }
